@@ -4,6 +4,7 @@ package e1
 import (
 	"fmt"
 	"math/rand"
+	"regexp"
 	"strings"
 
 	"github.com/bilibili/gengine/builder"
@@ -176,7 +177,7 @@ func RunC01(k *fw.Case) {
 	before := fxG.State()
 	rb, err := compile(fxG, text.String())
 	if err != nil {
-		k.Inconclusive("generated expression text does not compile: " + trunc(err.Error(), 300) + " text: " + trunc(text.String(), 400))
+		noCompile(k, "expression", err, text.String())
 		return
 	}
 	res, eerr, pan := execSort(rb)
@@ -244,6 +245,19 @@ func RunC01(k *fw.Case) {
 }
 
 func p0(e gen.Expr) string { return (&gen.Printer{}).Expr(e) }
+
+// noCompile: the generators print only texts of the language (typed trees through one printer; more than
+// 10^6 of them compiled on the pinned tree), so a text the builder rejects is a program whose expressions /
+// statements get no value at all - a violation of the property under test, not a missing observation.
+func noCompile(k *fw.Case, what string, err error, text string) {
+	msg := err.Error()
+	class := regexp.MustCompile(`[0-9]+`).ReplaceAllString(msg, "N")
+	if i := strings.Index(class, ":"); i > 0 && i < 80 {
+		class = class[i:]
+	}
+	k.Violate("no-compile/"+what, "a generated "+what+" text of the language is rejected by the builder: "+trunc(msg, 300),
+		map[string]interface{}{"text": text, "error": msg, "class": trunc(class, 60)})
+}
 
 func trunc(s string, n int) string {
 	if len(s) > n {
